@@ -536,3 +536,20 @@ Section Header.
       end
     end.
 End Header.
+
+(* ------------------------------------------------------------------ extensions across saves *)
+(* Cifti2Image.to_file_map works on the image's own NIfTI-2 header, whose extension list may
+   already hold a CIFTI-2 extension (the header came from a loaded or an already saved image
+   through `nifti_header=`): every old CIFTI-2 extension is dropped and ONE fresh extension
+   with the XML of the current header is appended, in place.  from_file_map takes the first
+   CIFTI-2 extension.  An extension is (code, payload id); CIFTI-2 = code 32. *)
+Definition nifti_ext := (Z * Z)%type.
+Definition is_cifti_ext (e : nifti_ext) : bool := fst e =? 32.
+Definition set_cifti_ext (exts : list nifti_ext) (xml : Z) : list nifti_ext :=
+  filter (fun e => negb (is_cifti_ext e)) exts ++ [(32, xml)].
+Fixpoint first_cifti_ext (exts : list nifti_ext) : option Z :=
+  match exts with
+  | [] => None
+  | e :: r => if is_cifti_ext e then Some (snd e) else first_cifti_ext r
+  end.
+
